@@ -138,6 +138,7 @@ class ExprMixin:
         st.assume(smt.typeof(o) == k if exact else smt.subclass(smt.typeof(o), k))
         for h in self.reg.fresh_hooks:
             h(self.eng, st, o, clsname)
+        st.ghost["$alloc_cls"] = frozenset(st.ghost.get("$alloc_cls", frozenset())) | {clsname}
         return o
 
     def assume_closed(self, st, o):
@@ -171,17 +172,17 @@ class ExprMixin:
             return
         if f in ("$litem", "$oval", "$okey"):
             i = z3.Const(fresh_name("i!cl"), z3.IntSort())
-            st.assume(z3.ForAll([x, i], z3.Select(z3.Select(a, x), i) != o,
+            st.assume(smt.forall([x, i], z3.Select(z3.Select(a, x), i) != o,
                                 patterns=[z3.Select(z3.Select(a, x), i)]))
         elif f == "$smem":
-            st.assume(z3.ForAll([x], z3.Not(z3.Select(z3.Select(a, x), o)),
+            st.assume(smt.forall([x], z3.Not(z3.Select(z3.Select(a, x), o)),
                                 patterns=[z3.Select(a, x)]))
         elif f == "$dget":
             y = z3.Const(fresh_name("y!cl"), V)
-            st.assume(z3.ForAll([x, y], z3.Select(z3.Select(a, x), y) != o,
+            st.assume(smt.forall([x, y], z3.Select(z3.Select(a, x), y) != o,
                                 patterns=[z3.Select(z3.Select(a, x), y)]))
         else:
-            st.assume(z3.ForAll([x], z3.Select(a, x) != o, patterns=[z3.Select(a, x)]))
+            st.assume(smt.forall([x], z3.Select(a, x) != o, patterns=[z3.Select(a, x)]))
 
     def new_exception(self, st, clsname, args=()):
         e = self.alloc(st, clsname)
@@ -533,10 +534,10 @@ class ExprMixin:
                     st2.assume(smt.typeof(t) == self.eng.ct.cls("tuple"))
                     st2.assume(smt.tlen(t) == smt.tlen(a) + smt.tlen(b))
                     i = z3.Const(fresh_name("i!tc"), z3.IntSort())
-                    st2.assume(z3.ForAll([i], z3.Implies(z3.And(0 <= i, i < smt.tlen(a)), smt.titem(t, i) == smt.titem(a, i)),
+                    st2.assume(smt.forall([i], z3.Implies(z3.And(0 <= i, i < smt.tlen(a)), smt.titem(t, i) == smt.titem(a, i)),
                                          patterns=[smt.titem(t, i)]))
                     j = z3.Const(fresh_name("j!tc"), z3.IntSort())
-                    st2.assume(z3.ForAll([j], z3.Implies(z3.And(0 <= j, j < smt.tlen(b)), smt.titem(t, smt.tlen(a) + j) == smt.titem(b, j)),
+                    st2.assume(smt.forall([j], z3.Implies(z3.And(0 <= j, j < smt.tlen(b)), smt.titem(t, smt.tlen(a) + j) == smt.titem(b, j)),
                                          patterns=[smt.titem(b, j)]))
                     st2.assume(st2.heap.sel("$alloc", t))
                     yield st2, t, None
@@ -547,8 +548,8 @@ class ExprMixin:
                     st2.heap.store("$llen", o, la + lb)
                     arr = z3.Const(fresh_name("lcat"), z3.ArraySort(z3.IntSort(), V))
                     i = z3.Const(fresh_name("i!lc"), z3.IntSort())
-                    st2.assume(z3.ForAll([i], z3.Implies(z3.And(0 <= i, i < la), z3.Select(arr, i) == z3.Select(st2.heap.sel("$litem", a), i))))
-                    st2.assume(z3.ForAll([i], z3.Implies(z3.And(0 <= i, i < lb), z3.Select(arr, la + i) == z3.Select(st2.heap.sel("$litem", b), i))))
+                    st2.assume(smt.forall([i], z3.Implies(z3.And(0 <= i, i < la), z3.Select(arr, i) == z3.Select(st2.heap.sel("$litem", a), i))))
+                    st2.assume(smt.forall([i], z3.Implies(z3.And(0 <= i, i < lb), z3.Select(arr, la + i) == z3.Select(st2.heap.sel("$litem", b), i))))
                     st2.heap.store("$litem", o, arr)
                     yield st2, o, None
                     continue
@@ -582,7 +583,7 @@ class ExprMixin:
                         st2.heap.store("$llen", n, z3.If(ln >= k, ln - k, 0))
                         arr = z3.Const(fresh_name("slice"), z3.ArraySort(z3.IntSort(), V))
                         i = z3.Const(fresh_name("i!sl"), z3.IntSort())
-                        st2.assume(z3.ForAll([i], z3.Implies(i >= 0, z3.Select(arr, i) == z3.Select(st2.heap.sel("$litem", o), i + k))))
+                        st2.assume(smt.forall([i], z3.Implies(i >= 0, z3.Select(arr, i) == z3.Select(st2.heap.sel("$litem", o), i + k))))
                         st2.heap.store("$litem", n, arr)
                         yield st2, n, None
                         continue
@@ -708,7 +709,7 @@ class ExprMixin:
         nk = z3.Const(fresh_name("okey"), okey.sort())
         nv = z3.Const(fresh_name("oval"), oval.sort())
         i = z3.Const(fresh_name("i!dd"), z3.IntSort())
-        st.assume(z3.ForAll([i], z3.And(z3.Select(nk, i) == z3.If(i < pos, z3.Select(okey, i), z3.Select(okey, i + 1)),
+        st.assume(smt.forall([i], z3.And(z3.Select(nk, i) == z3.If(i < pos, z3.Select(okey, i), z3.Select(okey, i + 1)),
                                         z3.Select(nv, i) == z3.If(i < pos, z3.Select(oval, i), z3.Select(oval, i + 1)))))
         st.heap.store("$dhas", d, z3.Store(has, k, z3.BoolVal(False)))
         st.heap.store("$olen", d, n - 1)
